@@ -9,6 +9,7 @@ CONSTANTS
   MaxConf = 1
   Buf = 1
   Fixes = {"D1", "D14", "D2", "D18", "D19", "D20"}
+  ColorOnly = FALSE
   ReplayLen = 0
 INVARIANTS RowsOnceInOrder Lag PrefixStable Boundary LanguageByName
 CHECK_DEADLOCK FALSE
